@@ -82,6 +82,26 @@ def cases_for(tier, rng):
                                         If([(N(P + '_index'), [T('LEAK')])], [T('clean')])]
                                 cases.append(dict(prog=prog, src=sources(kw={'seq': lst('S', items, ck), 'x': plain('outer-x')}),
                                                   K=0, fk=[], svn=svn_table(prefix=P)))
+    # the same sequence object traversed more than once in one rendering (side by side and nested): what one tag shows
+    # (reversed, sorted) does not change what the next one sees
+    short = [T('('), V('sequence-index'), T('='), V('sequence-item'), If([(N('sequence-start'), [T('S')])]),
+             If([(N('sequence-end'), [T('E')])]), T(')')]
+    shortx = [T('('), V('sequence-index'), T('='), V('sequence-var-x'), If([(N('sequence-start'), [T('S')])]),
+              If([(N('sequence-end'), [T('E')])]), T(')')]
+    for kind in ('str', 'num', 'obj', 'pair'):
+        for n in (2, 3, 4):
+            items = [elem(kind, i, ('x2', 'x1')[i % 2]) for i in range(n)]
+            bd = short if kind in ('str', 'num') else shortx
+            skey = 'x' if kind in ('obj', 'pair') else ''
+            for ck in ('list', 'tuple', 'lazy'):
+                for o1 in (dict(reverse=True), dict(sort=skey), dict(sort=skey, reverse=True)):
+                    for o2 in (dict(), dict(reverse=True), dict(sort=skey)):
+                        for r1, r2 in ((N('seq'), N('seq')), (X('seq'), N('seq')), (N('seq'), X('seq'))):
+                            side = [In(r1, bd, **o1), T('|'), In(r2, bd, **o2), T('|'), In(r1, bd, **o1)]
+                            nested = [In(r1, [T('{'), V('sequence-index')] + [In(r2, bd, **o2)] + [T('}')], **o1)]
+                            for prog in (side, nested):
+                                cases.append(dict(prog=prog, src=sources(kw={'seq': lst('S', items, ck), 'x': plain('outer-x')}),
+                                                  K=0, fk=[], svn=svn_table()))
     # a callable that returns the sequence is called once, by name
     f = fn('FS', lst('S', [elem('obj', 0, 'x1'), elem('obj', 1, 'x1'), elem('obj', 2, 'x2')]))
     cases.append(dict(prog=[In(N('fs'), body('obj', True, False)), V('x')],
@@ -106,7 +126,8 @@ def main(tier):
         rule='sequences of length 0..N over {objects, mappings, (key, object), (key, string), strings, numbers} '
              'with x in {x1, x2} (all value patterns) x container {list, tuple, generator, iterator, lazy '
              '__getitem__ sequence} x {no_push_item, prefix, reverse} x by name / by expression; the body prints '
-             'every documented variable, with prefix aliases, and the visibility of x; probes after the end tag')
+             'every documented variable, with prefix aliases, and the visibility of x; probes after the end tag; the same sequence '
+             'object traversed by several tags (side by side, nested) with reverse / sort on some of them')
 
 
 replay = render_common.replay
